@@ -1,2 +1,2 @@
-/* fid: array-member-lvalue (fixed 2005721); msg: left side of assignment expression is not an lvalue */
+/* fid: array-member-lvalue (fixed 71be578); msg: left side of assignment expression is not an lvalue */
 struct S {int m[4];}; void f(struct S *p){ p->m += 2; }
